@@ -52,17 +52,31 @@ Fn(name, args) == [k |-> "fn", name |-> name, args |-> args]
 Tx(s) == [k |-> "text", s |-> s]
 Pr(id, e, dirs) == [k |-> "print", id |-> id, e |-> e,
                        dirs |-> [i \in 1..Len(dirs) |-> [name |-> dirs[i], args |-> <<>>]]]
+\* a print whose directives take arguments: ds is a sequence of <<name, args>>
+PrD(id, e, ds) == [k |-> "print", id |-> id, e |-> e,
+                   dirs |-> [i \in 1..Len(ds) |-> [name |-> ds[i][1], args |-> ds[i][2]]]]
 NoBody == [has |-> FALSE, body |-> <<>>]
 Body(b) == [has |-> TRUE, body |-> b]
 PV(key, e) == [k |-> "pv", key |-> key, e |-> e]
+PC(key, b) == [k |-> "pc", key |-> key, body |-> b]
 Call(t, data, params) == [k |-> "call", tmpl |-> t, data |-> data, de |-> [k |-> "null"], params |-> params]
+\* data="<expression>"
+CallE(t, de, params) == [k |-> "call", tmpl |-> t, data |-> "expr", de |-> de, params |-> params]
 
+\* The last four prints mix the marker directives (id, noAutoescape) with
+\* others before and after them and use the directives that add markup: a JS
+\* generator (or renderer) that rewrites a node's directive list while it
+\* filters it changes what these print afterwards.
 T1 == [params |-> <<[name |-> "x", opt |-> FALSE], [name |-> "xs", opt |-> FALSE]>>,
        nsa |-> "", ta |-> "",
        body |-> << Tx("<b>"), Pr("p1", Var("x"), <<>>), Tx("</b>"),
                    [k |-> "letv", name |-> "y", e |-> Bin("add", Var("x"), ES("1"))],
                    Pr("p2", Var("y"), <<"noAutoescape">>),
-                   Call("a.t2", "all", <<PV("z", Var("y"))>>) >>]
+                   Call("a.t2", "all", <<PV("z", Var("y"))>>),
+                   PrD("p11", Var("x"), << <<"noAutoescape", <<>> >>, <<"truncate", <<EI(30)>> >> >>),
+                   PrD("p12", Var("y"), << <<"truncate", <<EI(5)>> >>, <<"id", <<>> >> >>),
+                   PrD("p13", Var("x"), << <<"changeNewlineToBr", <<>> >> >>),
+                   PrD("p14", Var("y"), << <<"insertWordBreaks", <<EI(3)>> >>, <<"noAutoescape", <<>> >> >>) >>]
 
 T2 == [params |-> <<[name |-> "x", opt |-> FALSE], [name |-> "xs", opt |-> FALSE], [name |-> "z", opt |-> TRUE]>>,
        nsa |-> "", ta |-> "",
@@ -77,15 +91,21 @@ T2 == [params |-> <<[name |-> "x", opt |-> FALSE], [name |-> "xs", opt |-> FALSE
                     els |-> Body(<<Pr("p6", Var("x"), <<"escapeHtml", "id", "noAutoescape">>)>>)],
                    Tx("]") >>]
 
-T3 == [params |-> <<[name |-> "x", opt |-> FALSE], [name |-> "n", opt |-> FALSE]>>,
+\* The two calls take their data from an EXPRESSION that evaluates to one of
+\* the caller's own maps (ternary / elvis over references) and add explicit
+\* value and content params: those must land in a fresh frame, not in the map.
+T3 == [params |-> <<[name |-> "x", opt |-> FALSE], [name |-> "n", opt |-> FALSE],
+                    [name |-> "o", opt |-> TRUE], [name |-> "dflt", opt |-> FALSE]>>,
        nsa |-> "", ta |-> "",
        body |-> << [k |-> "msg", desc |-> "m", body |-> <<Tx("Hi "), Pr("p7", Var("x"), <<>>)>>],
                    [k |-> "if",
                     brs |-> <<[c |-> Bin("gt", Var("n"), EI(1)),
-                               body |-> <<Pr("p8", Fn("vmax2", <<Var("n"), EI(2)>>), <<>>)>>]>>,
-                    els |-> Body(<<Call("a.t2", "none",
-                                        <<PV("x", ES("k")),
-                                          PV("xs", [k |-> "list", items |-> <<EI(1), EI(2)>>])>>)>>)],
+                               body |-> <<CallE("a.t2", [k |-> "tern", c |-> Bin("gt", Var("n"), EI(2)), a |-> Var("o"), b |-> Var("dflt")],
+                                                <<PV("x", ES("k"))>>),
+                                          Pr("p8", Fn("vmax2", <<Var("n"), EI(2)>>), <<>>)>>]>>,
+                    els |-> Body(<<CallE("a.t2", Bin("elvis", Var("o"), Var("dflt")),
+                                         <<PV("x", ES("k")),
+                                           PC("z", <<Tx("c"), Pr("p15", Var("n"), <<>>)>>)>>)>>)],
                    [k |-> "letc", name |-> "w", body |-> <<Tx("w"), Pr("p9", Var("n"), <<>>)>>],
                    Pr("p10", Var("w"), <<>>) >>]
 
@@ -94,7 +114,8 @@ Templates == <<"a.t1", "a.t2", "b.t3">>
 
 \* the source files and the print nodes each contains, in source order
 Files == <<"a.soy", "b.soy">>
-FileIds == ("a.soy" :> <<"p1", "p2", "p3", "p4", "p5", "p6">>) @@ ("b.soy" :> <<"p7", "p8", "p9", "p10">>)
+FileIds == ("a.soy" :> <<"p1", "p2", "p11", "p12", "p13", "p14", "p3", "p4", "p5", "p6">>)
+           @@ ("b.soy" :> <<"p7", "p8", "p15", "p9", "p10">>)
 
 TheExpr == Bin("add", Fn("round", <<[k |-> "float", num |-> 7, sh |-> 1]>>),
                       Fn("length", <<[k |-> "list", items |-> <<EI(1), EI(2)>>]>>))
@@ -120,9 +141,11 @@ ASSUME Cardinality(AllPrints) = Cardinality(DOMAIN Dirs0)      \* identities are
 Reg0 == [bundle |-> TheBundle, dirs |-> Dirs0, memo |-> [x \in {} |-> <<>>]]
 
 DataSets == <<"d1", "d2", "d3">>
-Store0 == [data |-> [d1 |-> [x |-> S("u<v"), xs |-> L(<<I(1), I(2)>>), n |-> I(3)],
-                     d2 |-> [x |-> S(""), xs |-> L(<<>>), n |-> I(0)],
-                     d3 |-> [xs |-> L(<<I(7)>>), n |-> I(0)]],       \* no x: printing it fails
+Store0 == [data |-> [d1 |-> [x |-> S("u<v"), xs |-> L(<<I(1), I(2)>>), n |-> I(3),
+                             o |-> M([xs |-> L(<<I(4)>>)]), dflt |-> M([xs |-> L(<<I(5), I(6)>>)])],
+                     d2 |-> [x |-> S(""), xs |-> L(<<>>), n |-> I(0), dflt |-> M([xs |-> L(<<>>)])],
+                     \* no x: printing it fails
+                     d3 |-> [xs |-> L(<<I(7)>>), n |-> I(0), dflt |-> M([xs |-> L(<<I(8)>>)])]],
            ij |-> M([who |-> S("W&")]),
            cat |-> "identity"]     \* a catalogue that translates every message to itself
 
